@@ -14,7 +14,7 @@ use std::collections::BTreeMap;
 
 #[derive(Clone, Debug, PartialEq)]
 pub struct HistScenario {
-    /// "i32" or "N64" (N64 values are v * 0.5)
+    /// "i32", "N64" (values are v * 0.5) or "wide" ([v, -v, 7] as [i64; 3])
     pub elem: String,
     /// per axis: the edge collection as given (unsorted, duplicates allowed)
     pub edges: Vec<Vec<i64>>,
@@ -156,6 +156,13 @@ impl HistElem for N64 {
     }
 }
 
+/// an element type wider than 16 bytes (ordered lexicographically; the first component decides)
+impl HistElem for [i64; 3] {
+    fn conv(v: i64) -> [i64; 3] {
+        [v, -v, 7]
+    }
+}
+
 /// scenario integers that mean +inf / -inf for N64 grids (never generated for i32)
 pub const POS_INF: i64 = 1 << 40;
 pub const NEG_INF: i64 = -(1 << 40);
@@ -206,6 +213,7 @@ fn counts_of<T: HistElem>(h: &Histogram<T>) -> (Vec<usize>, Vec<usize>) {
 pub fn exec_hist(scn: &HistScenario) -> RunResult {
     match scn.elem.as_str() {
         "N64" => exec_hist_t::<N64>(scn),
+        "wide" => exec_hist_t::<[i64; 3]>(scn),
         _ => exec_hist_t::<i32>(scn),
     }
 }
@@ -240,7 +248,12 @@ fn insert_obs<T: HistElem>(h: &mut Histogram<T>, obs: &[i64], form: u8) -> Resul
 fn exec_hist_t<T: HistElem>(scn: &HistScenario) -> RunResult {
     let mut cx = Ctx::new();
     let d = scn.edges.len();
-    *cx.stats.elem_hist.entry(if scn.elem == "N64" { "N64" } else { "i32" }).or_insert(0) += 1;
+    *cx.stats.elem_hist.entry(match scn.elem.as_str() {
+        "N64" => "N64",
+        "wide" => "[i64; 3]",
+        _ => "i32",
+    })
+    .or_insert(0) += 1;
     let pol = Policy::simple(crate::entropy::Kind::Low, 0);
     let mut model = Model::new(&scn.edges);
     let delivered = scn.delivered();
